@@ -19,14 +19,14 @@ var scalarLhs = map[string][]lhsCand{
 		{"owner.name", TStr, false}, {"owner.age", TInt, false}, {"owner.active", TBool, false}, {"owner.id", TStr, false},
 		{"meta.k", TAny, false}, {"meta.n", TAny, false}, {"meta.f", TAny, false}, {"meta.flag", TAny, false}, {"meta.when", TAny, false}, {"meta.a.b", TAny, false}, {"meta.missing", TAny, false}},
 	Owners: {{"id", TStr, false}, {"name", TStr, false}, {"age", TInt, false}, {"active", TBool, false}},
-	Others: {{"id", TStr, false}, {"name", TStr, false}, {"rank", TInt, false}},
+	Others: {{"id", TStr, false}, {"name", TStr, false}, {"rank", TInt, false}, {"alias", TStr, false}},
 }
 
 var setLhs = map[string][]lhsCand{
 	Things: {{"tags", TStr, true}, {"nums", TStr, true}, {"friends", TStr, true}, {"friends.name", TStr, true}, {"friends.rank", TInt, true}, {"friends.tags", TStr, true}, {"owner.tags", TStr, true}, {"friends.id", TStr, true},
-		{"owner.things", TStr, true}, {"owner.things.s", TStr, true}, {"friends.things.ibig", TInt, true}, {"friends.things.owner.name", TStr, true}},
+		{"owner.things", TStr, true}, {"owner.things.s", TStr, true}, {"friends.things.ibig", TInt, true}, {"friends.things.owner.name", TStr, true}, {"friends.alias", TStr, true}},
 	Owners: {{"tags", TStr, true}, {"things", TStr, true}, {"things.s", TStr, true}, {"things.ibig", TInt, true}, {"things.tags", TStr, true}, {"things.friends.name", TStr, true}, {"things.owner.name", TStr, true},
-		{"things.friends", TStr, true}, {"things.owner", TStr, true}},
+		{"things.friends", TStr, true}, {"things.owner", TStr, true}, {"things.friends.alias", TStr, true}},
 	Others: {{"tags", TStr, true}, {"things", TStr, true}, {"things.flt", TFloat, true}, {"things.owner.name", TStr, true}, {"things.owner.age", TInt, true}, {"things.nums", TStr, true}, {"things.friends.rank", TInt, true}},
 }
 
